@@ -163,11 +163,11 @@ func buildTown(r *Run, opts TownOpts) *Town {
 		a.OutboxURL = fmt.Sprintf("https://%s/c/out-%s", host, user)
 		if t.Chance(2, 3) {
 			for k := 1 + t.Draw(2); k > 0; k-- {
-				a.Icon = append(a.Icon, tn.link([]string{"Image", "Link"}[t.Draw(2)]))
+				a.Icon = append(a.Icon, tn.link([]string{"Image", "Link", "Image", "Link", "Video", "Audio"}[t.Draw(6)]))
 			}
 		}
 		if t.Chance(1, 2) {
-			a.Banner = append(a.Banner, tn.link("Image"))
+			a.Banner = append(a.Banner, tn.link([]string{"Image", "Image", "Image", "Video", "Link"}[t.Draw(5)]))
 		}
 		tn.Actors = append(tn.Actors, a)
 		f.serveWebfinger(host, user, a.ID)
@@ -245,7 +245,7 @@ func buildTown(r *Run, opts TownOpts) *Town {
 		}
 		if p.Kind == "Video" || p.Kind == "Image" || p.Kind == "Audio" || t.Chance(1, 3) {
 			for k := 1 + t.Draw(2); k > 0; k-- {
-				p.Media = append(p.Media, tn.link("Link"))
+				p.Media = append(p.Media, tn.link([]string{"Link", "Link", "Link", "Image", "Video", "Audio"}[t.Draw(6)]))
 			}
 		}
 		tn.Posts = append(tn.Posts, p)
